@@ -298,7 +298,24 @@ func TestVerif_ModesFS(t *testing.T) {
 				os.Symlink("file", filepath.Join(sroot, "link"))
 				p := filepath.Join(sroot, target)
 				os.Chtimes(p, fixedTime, fixedTime)
-				a := wattrs{Flags: uint32(flags), Size: 3, UID: 1, GID: 1, Perm: 0o600, Atime: 1000, Mtime: 2000}
+				// the permission word carries setuid / setgid / sticky in most cases: a set-attributes request sets them too
+				wperm := []uint32{0o600, 0o4711, 0o2750, 0o1777, 0o6755}[(flags+len(target)+len(via))%5]
+				if flags&2 != 0 {
+					// together with an owner change only the sticky bit is used: chown(2) itself clears setuid / setgid, in
+					// whatever order a server applies the two (OpenSSH applies them in the same order as this package)
+					wperm = []uint32{0o600, 0o1777}[flags%2]
+				}
+				wantMode := os.FileMode(wperm & 0o777)
+				if wperm&0o4000 != 0 {
+					wantMode |= os.ModeSetuid
+				}
+				if wperm&0o2000 != 0 {
+					wantMode |= os.ModeSetgid
+				}
+				if wperm&0o1000 != 0 {
+					wantMode |= os.ModeSticky
+				}
+				a := wattrs{Flags: uint32(flags), Size: 3, UID: 1, GID: 1, Perm: wperm, Atime: 1000, Mtime: 2000}
 				s := newSrvSession(t, tr, srvOpts{kind: "server", quiet: true})
 				s.start()
 				s.call(fInit(3))
@@ -319,7 +336,7 @@ func TestVerif_ModesFS(t *testing.T) {
 				if target == "dir" {
 					size = false
 				}
-				tr.emit("Setstat", kv{"flags": flags, "via": via, "target": target, "status": int(r.Code), "chsize": size, "chperm": st.Mode().Perm() == 0o600,
+				tr.emit("Setstat", kv{"flags": flags, "via": via, "target": target, "status": int(r.Code), "chsize": size, "chperm": st.Mode()&(os.ModePerm|os.ModeSetuid|os.ModeSetgid|os.ModeSticky) == wantMode,
 					"chowner": sys.Uid == 1 && sys.Gid == 1, "chtimes": st.ModTime().Unix() == 2000, "values": true})
 			}
 		}
